@@ -18,10 +18,11 @@ Definition c29_one (cc : c29case) : N * (bool * bool) :=
       negb (o_auth_changed o) &&
       (* not read *)
       negb (o_leak o) &&
-      (* not switched to: the session is not bound to it afterwards; a session that is already
-         bound to it gets nothing executed *)
-      (if N.eqb (q_cur req) internal_kg then N.eqb (o_dec o) 0
-       else negb (opt_kg_eqb (o_bound o) (Some internal_kg))) &&
+      (* not switched to: a request addressed at it (explicitly, or through a session bound to it)
+         gets nothing executed; a session not bound to it is not bound to it afterwards *)
+      implb (N.eqb (q_cur req) internal_kg) (N.eqb (o_dec o) 0) &&
+      implb (negb (opt_kg_eqb (q_bound req) (Some internal_kg)))
+            (negb (opt_kg_eqb (o_bound o) (Some internal_kg))) &&
       (* its own ACL rows are untouched unless the caller was made an owner of it *)
       (set_eqb aclrow_eqb (acl_rows_of internal_kg (w_acls w0)) (acl_rows_of internal_kg (w_acls (o_world o))) ||
        match roles internal_kg with Some KOwner => true | _ => false end) in
